@@ -274,8 +274,19 @@ def rule_imp4(ctx: Ctx) -> RuleResult:
     prog = ctx.prog
     g = prog.func("json_to_models/models/base.py", "_generate_code")
     # imports returned by the recursion and by each generator are all accumulated into the returned list
-    for fn in [g] + [x for x in prog.module("json_to_models/models/base.py").all_funcs
-                     if x.name in ("_render_generators", "_create_generators") and x is not g]:
+    mod = g.module
+    helpers = [g]
+    stack = [g]
+    while stack:
+        f0 = stack.pop()
+        for n in walk_no_nested(f0.node):
+            if isinstance(n, ast.Call) and isinstance(n.func, ast.Name) and n.func.id in mod.functions:
+                h = mod.functions[n.func.id]
+                if h not in helpers and h.name not in ("generate_code", "template", "sort_kwargs", "prepare_label"):
+                    helpers.append(h)
+                    stack.append(h)
+    helper_names = {h.name for h in helpers}
+    for fn in helpers:
         rets = [n for n in walk_no_nested(fn.node) if isinstance(n, ast.Return) and isinstance(n.value, ast.Tuple)]
         if not rets:
             continue
@@ -284,7 +295,7 @@ def rule_imp4(ctx: Ctx) -> RuleResult:
             if isinstance(n, ast.Assign) and isinstance(n.targets[0], ast.Tuple) and len(n.targets[0].elts) == 2 and \
                     isinstance(n.value, ast.Call):
                 callee = norm(n.value.func).split(".")[-1]
-                if callee not in (g.name, "generate", "_render_generators"):
+                if callee not in helper_names | {"generate"}:
                     continue
                 rr.instances += 1
                 part = norm(n.targets[0].elts[0])
